@@ -16,6 +16,12 @@ class HarnessError(Exception):
     """The harness itself misbehaved (bad request, protocol error). Never a property violation."""
 
 
+class Rejected(Exception):
+    """The tree refused to wire/build a program the generator constructs as valid. On the unchanged tree this never
+    happens (that is checked); on a changed tree the case is skipped and counted so that the search continues - if
+    more than a fifth of the cases are refused the check ends as a harness error instead."""
+
+
 class Worker:
     def __init__(self, variant: str = "plain", recycle_every: int = 1500, timeout: float = 60.0):
         self.exe = str(Path(os.environ.get("VERIF_BUILD_DIR", str(VERIF / ".build"))) / variant / "hgv_worker")
